@@ -268,7 +268,10 @@ int main(int argc, char **argv) {
     Golden g;
     while (in >> name >> g.digest >> g.points >> g.faces >> g.atts) golden[name] = g;
   }
-  const bool c10 = std::string(env("VERIF_MODE", "c05")) == "c10";
+  std::string mode_arg = env("VERIF_MODE", "c05");
+  for (int i = 1; i + 1 < argc; ++i)
+    if (std::string(argv[i]) == "--mode") mode_arg = argv[i + 1];
+  const bool c10 = mode_arg == "c10";
   if (!replay_path.empty() && c10) {
     std::string e = guarded([&] { return check_stream_c10(replay_path); });
     printf(e.empty() ? "REPLAY-PASS\n" : "REPLAY-FAIL %s\n", e.c_str());
